@@ -251,8 +251,6 @@ def _dumps_kvn(data, **kwargs):
     content = []
     for i, data in enumerate(data):
 
-        data.form = "cartesian"
-
         extras = {
             "START_TIME": "{:{}}".format(data.start, DATE_FMT_DEFAULT),
             "STOP_TIME": "{:{}}".format(data.stop, DATE_FMT_DEFAULT),
@@ -266,6 +264,7 @@ def _dumps_kvn(data, **kwargs):
         text = []
         cov = []
         for orb in data:
+            orb = orb.copy(form="cartesian")
             text.append(
                 "{date:{dfmt}} {orb[0]:{fmt}} {orb[1]:{fmt}} {orb[2]:{fmt}} {orb[3]:{fmt}} {orb[4]:{fmt}} {orb[5]:{fmt}}".format(
                     date=orb.date,
@@ -330,6 +329,7 @@ def _dumps_xml(data, **kwargs):
         data_tag = ET.SubElement(segment, "data")
 
         for el in data:
+            el = el.copy(form="cartesian")
             statevector = ET.SubElement(data_tag, "stateVector")
             epoch = ET.SubElement(statevector, "EPOCH")
             epoch.text = el.date.strftime(DATE_FMT_DEFAULT)
